@@ -2205,7 +2205,13 @@ func (c *BytecodeCompiler) compileWhileExpressionNode(label string, node *ast.Wh
 	// loop body
 	c.compileStatementsWithResult(node.ThenBody, location)
 
+	continueOffset := start
+	closeUpvaluesOffset := c.nextInstructionOffset()
 	c.closeUpvaluesInCurrentScope(location.EndPos.Line)
+	if c.nextInstructionOffset() != closeUpvaluesOffset {
+		// `continue` has to close the upvalues of this iteration as well
+		continueOffset = closeUpvaluesOffset
+	}
 	if c.additionalAbortChecks {
 		c.emit(location.EndPos.Line, bytecode.CHECK_ABORT)
 	}
@@ -2216,7 +2222,7 @@ func (c *BytecodeCompiler) compileWhileExpressionNode(label string, node *ast.Wh
 	c.patchJump(loopBodyOffset, location)
 
 	c.leaveScope(location.EndPos.Line)
-	c.patchLoopJumps(start)
+	c.patchLoopJumps(continueOffset)
 }
 
 func (c *BytecodeCompiler) modifierWhileExpression(label string, node *ast.ModifierNode) {
@@ -2935,11 +2941,17 @@ func (c *BytecodeCompiler) compileNumericFor(label string, init, cond, increment
 	// loop body
 	then()
 
+	closeUpvaluesOffset := c.nextInstructionOffset()
 	c.closeUpvaluesInCurrentScope(location.EndPos.Line)
+	closedUpvalues := c.nextInstructionOffset() != closeUpvaluesOffset
 	if increment != nil {
 		continueOffset = c.nextInstructionOffset()
 		// increment step eg. `i += 1`
 		c.compileNodeWithoutResult(increment)
+	}
+	if closedUpvalues {
+		// `continue` has to close the upvalues of this iteration as well
+		continueOffset = closeUpvaluesOffset
 	}
 
 	if c.additionalAbortChecks {
